@@ -199,7 +199,13 @@ def check_case(case):
         elif higher:
             origin = getattr(eng, "orphan_origin", {})
             kinds = sorted({origin.get(o, "?") for o in higher})
-            cause = "recovery-surfaces-orphan/" + "+".join(kinds)
+            if all(_version_of(o) == vL for o in higher) and all(os.path.getmtime(os.path.join(root, "metadata", o)) < os.path.getmtime(os.path.join(root, "metadata", L)) for o in higher):
+                # the leftover carries the SAME number as the latest committed version and is OLDER than it: the recovery scan has a rule
+                # for that (the most recently written file of the highest number) - not the recorded 'indistinguishable' situation
+                cause = "recovery-same-number-older-orphan/" + "+".join(kinds)
+                out["labels"].append("orphan-same-number-as-committed")
+            else:
+                cause = "recovery-surfaces-orphan/" + "+".join(kinds)
         else:
             cause = "recovery/" + dmg
 
